@@ -37,7 +37,7 @@ Print Assumptions edns_version_roundtrip.
 
 (* ------------------------------------------------------------------------------------------ *)
 From DV Require Import Proofs.NameOrder Proofs.NameValid Proofs.NameCompress.
-From DV Require Import Proofs.MessageName Proofs.MessageRender Proofs.MessageRead Proofs.MessageRoundtrip Proofs.MessageRoundtrip2 Proofs.MessageRoundtrip3 Proofs.MessageUpdate Proofs.MessageRerender Proofs.MessageLimit.
+From DV Require Import Proofs.MessageName Proofs.MessageRender Proofs.MessageRead Proofs.MessageRoundtrip Proofs.MessageRoundtrip2 Proofs.MessageRoundtrip3 Proofs.MessageUpdate Proofs.MessageRerender Proofs.MessageLimit Proofs.MessageApi Proofs.MessageUtf8.
 
 (* Rendering a well-formed ordinary message (any opcode but UPDATE; any id and flags; EDNS with any
    flags, extended rcode, version, payload and generic options; a TSIG record; with or without an
@@ -161,6 +161,30 @@ Theorem render_table_sound : forall o pad m max_size request_payload r,
 Proof. exact render_table_sound_stmt. Qed.
 Print Assumptions render_table_sound.
 
+(* every message the reader returns - from ANY octets, under every reader option - carries its EDNS options
+   (NSID, ECS, COOKIE, EDE, the UTF-8 text options, options without a class) in exactly the octets their
+   classes render: decoding those octets again gives the same octets back; REPORTCHANNEL carries a valid absolute
+   name in uncompressed form.  This is the options part of the
+   well-formedness hypothesis of render_parse (WfMsg: wf_opt), so it holds for parsed messages unconditionally *)
+Theorem parsed_options_wf : forall wire origin po m,
+  Forall (fun b => 0 <= b < 256) wire -> from_wire wire origin po = Ok m ->
+  match mopt m with
+  | Some oo => Forall (fun cd => if fst cd =? 18
+                                then exists n, name_ok n /\ snd cd = wire_labels false n   (* REPORTCHANNEL *)
+                                else opt_dec (fst cd) (snd cd) = Ok (snd cd)) (oopts oo)
+  | None => True
+  end.
+Proof. exact parsed_options_wf_lemma. Qed.
+Print Assumptions parsed_options_wf.
+
+(* the UTF-8 validator of the text-valued options (the model of bytes.decode("utf8"), byte-exact against the
+   implementation on the malformed-UTF-8 table of the harness) accepts exactly the RFC 3629 encodings of sequences
+   of Unicode scalar values (no surrogates, no overlong forms, nothing above U+10FFFF) *)
+Theorem utf8_validator_exact : forall l, Forall (fun b => 0 <= b) l ->
+  (utf8_ok l = true <-> exists cps, Forall scalar cps /\ l = flat_map utf8_enc cps).
+Proof. exact utf8_ok_spec. Qed.
+Print Assumptions utf8_validator_exact.
+
 (* ---- non-vacuity: a response with shared suffixes, a case variant, MX/NS/SOA names and EDNS ---- *)
 Definition n_ex : name := [[101; 120]; [99; 111; 109]; []].                 (* ex.com. *)
 Definition n_www : name := [[119; 119; 119]; [101; 120]; [99; 111; 109]; []]. (* www.ex.com. *)
@@ -173,9 +197,10 @@ Definition ex_m : msg :=
          mkRR n_WWW 1 1 0 None 60 [[PB [1; 2; 3; 4]]]]
         [mkRR n_ex 1 6 0 None 3600 [[PN n_www; PN n_ex; PB (repeat 0 20)]]]
         [mkRR n_ex 1 16 0 None 5 [[PB [2; 104; 105]]]]
-        (* options: one without a class, NSID, COOKIE (client+server), ECS 192.0.2.0/24, EDE 18 "ok", filtering contact "é" *)
+        (* options: one without a class, NSID, COOKIE (client+server), ECS 192.0.2.0/24, EDE 18 "ok", filtering contact "é", REPORTCHANNEL *)
         (Some (mkOpt 32768 1232 [(65001, [1; 2; 3]); (3, [97]); (10, repeat 7 16); (8, [0; 1; 24; 0; 192; 0; 2]);
-                                 (15, [0; 18; 111; 107]); (23, [195; 169])])) None.
+                                 (15, [0; 18; 111; 107]); (23, [195; 169]);
+                                 (18, [3; 97; 98; 99; 2; 101; 120; 0])])) None.     (* report channel abc.ex. *)
 
 Ltac pieces := repeat (cbn [piece_wf]; first [assumption | exact Logic.I | reflexivity | constructor]).
 Ltac solve_name_ok := split; [repeat split; [repeat constructor; vm_compute; discriminate | vm_compute; discriminate | repeat constructor; discriminate] | reflexivity].
@@ -221,11 +246,13 @@ Proof.
   - cbn [keys_fresh]. repeat split; repeat constructor.
   - cbn [keys_fresh]. repeat split; repeat constructor.
   - cbn [keys_fresh]. repeat split; repeat constructor.
-  - split; [repeat constructor|]. apply nw_none. split; [apply Valid_root|reflexivity].
+  - split; [|apply nw_none; split; [apply Valid_root|reflexivity]].
+    repeat (constructor; [first [reflexivity | (exists [[97; 98; 99]; [101; 120]; []]; split; [solve_name_ok|reflexivity])]|]).
+    constructor.
 Qed.
 
 Example render_parse_nonvacuous :
-  exists w m', to_wire ex_m None 0 0 false 0 = Ok w /\ zlen w = 197 /\
+  exists w m', to_wire ex_m None 0 0 false 0 = Ok w /\ zlen w = 209 /\
                from_wire w None po0 = Ok m' /\ msg_equiv m' ex_m /\
                (* the case variant WWW.EX.com. was written as a pointer and reads back as www.ex.com. *)
                map rname (man m') = [n_www; n_www].
